@@ -44,7 +44,7 @@ func runC19(c *core.Ctx) {
 		if strings.HasSuffix(sp, "/generate") {
 			continue // table generator (a main package), not part of the library
 		}
-		if sp == "pdf" || strings.HasPrefix(sp, "pdf/internal/filter") {
+		if sp == "pdf" || strings.HasPrefix(sp, "pdf/internal/filter") || (exploreAll && !strings.Contains(sp, "/examples/") && !strings.Contains(sp, "viewer-tests") && !strings.HasPrefix(sp, "pdf/cmd/")) {
 			pkgs = append(pkgs, sp)
 		}
 	}
